@@ -99,31 +99,36 @@ Record bal := mkBal {
   b_picks : list pick;
   b_now : Z;
   b_next : N;                                (* number of the next SubConn *)
-  b_fail : bool                              (* fake ClientConn: NewSubConn fails *)
+  b_fail : bool;                             (* fake ClientConn: NewSubConn fails *)
+  b_gate : bool;                             (* harness: park a Pick between its pool-size check and newSubConn() *)
+  b_parked : list nat                        (* published-picker index (whose p.mu is held) of each parked Pick *)
 }.
 
 Definition init_bal : bal :=
-  mkBal None 0%N 0 0 0 Idle [] [] [] [] [] (W32 - 1) [] false (PErr false) [] [] 0 0%N false.
+  mkBal None 0%N 0 0 0 Idle [] [] [] [] [] (W32 - 1) [] false (PErr false) [] [] 0 0%N false false [].
 
 (* record updates *)
-Definition set_cfg s v := mkBal v (b_addrs s) (b_nready s) (b_nconn s) (b_ntf s) (b_state s) (b_aff s) (b_fb s) (b_scstates s) (b_screfs s) (b_slots s) (b_rr s) (b_refr s) (b_undet s) (b_picker s) (b_published s) (b_picks s) (b_now s) (b_next s) (b_fail s).
-Definition set_addrs s v := mkBal (b_cfg s) v (b_nready s) (b_nconn s) (b_ntf s) (b_state s) (b_aff s) (b_fb s) (b_scstates s) (b_screfs s) (b_slots s) (b_rr s) (b_refr s) (b_undet s) (b_picker s) (b_published s) (b_picks s) (b_now s) (b_next s) (b_fail s).
-Definition set_counts s r c t := mkBal (b_cfg s) (b_addrs s) r c t (b_state s) (b_aff s) (b_fb s) (b_scstates s) (b_screfs s) (b_slots s) (b_rr s) (b_refr s) (b_undet s) (b_picker s) (b_published s) (b_picks s) (b_now s) (b_next s) (b_fail s).
-Definition set_state s v := mkBal (b_cfg s) (b_addrs s) (b_nready s) (b_nconn s) (b_ntf s) v (b_aff s) (b_fb s) (b_scstates s) (b_screfs s) (b_slots s) (b_rr s) (b_refr s) (b_undet s) (b_picker s) (b_published s) (b_picks s) (b_now s) (b_next s) (b_fail s).
-Definition set_aff s v := mkBal (b_cfg s) (b_addrs s) (b_nready s) (b_nconn s) (b_ntf s) (b_state s) v (b_fb s) (b_scstates s) (b_screfs s) (b_slots s) (b_rr s) (b_refr s) (b_undet s) (b_picker s) (b_published s) (b_picks s) (b_now s) (b_next s) (b_fail s).
-Definition set_fb s v := mkBal (b_cfg s) (b_addrs s) (b_nready s) (b_nconn s) (b_ntf s) (b_state s) (b_aff s) v (b_scstates s) (b_screfs s) (b_slots s) (b_rr s) (b_refr s) (b_undet s) (b_picker s) (b_published s) (b_picks s) (b_now s) (b_next s) (b_fail s).
-Definition set_scstates s v := mkBal (b_cfg s) (b_addrs s) (b_nready s) (b_nconn s) (b_ntf s) (b_state s) (b_aff s) (b_fb s) v (b_screfs s) (b_slots s) (b_rr s) (b_refr s) (b_undet s) (b_picker s) (b_published s) (b_picks s) (b_now s) (b_next s) (b_fail s).
-Definition set_screfs s v := mkBal (b_cfg s) (b_addrs s) (b_nready s) (b_nconn s) (b_ntf s) (b_state s) (b_aff s) (b_fb s) (b_scstates s) v (b_slots s) (b_rr s) (b_refr s) (b_undet s) (b_picker s) (b_published s) (b_picks s) (b_now s) (b_next s) (b_fail s).
-Definition set_slots s v := mkBal (b_cfg s) (b_addrs s) (b_nready s) (b_nconn s) (b_ntf s) (b_state s) (b_aff s) (b_fb s) (b_scstates s) (b_screfs s) v (b_rr s) (b_refr s) (b_undet s) (b_picker s) (b_published s) (b_picks s) (b_now s) (b_next s) (b_fail s).
-Definition set_rr s v := mkBal (b_cfg s) (b_addrs s) (b_nready s) (b_nconn s) (b_ntf s) (b_state s) (b_aff s) (b_fb s) (b_scstates s) (b_screfs s) (b_slots s) v (b_refr s) (b_undet s) (b_picker s) (b_published s) (b_picks s) (b_now s) (b_next s) (b_fail s).
-Definition set_refr s v := mkBal (b_cfg s) (b_addrs s) (b_nready s) (b_nconn s) (b_ntf s) (b_state s) (b_aff s) (b_fb s) (b_scstates s) (b_screfs s) (b_slots s) (b_rr s) v (b_undet s) (b_picker s) (b_published s) (b_picks s) (b_now s) (b_next s) (b_fail s).
-Definition set_undet s v := mkBal (b_cfg s) (b_addrs s) (b_nready s) (b_nconn s) (b_ntf s) (b_state s) (b_aff s) (b_fb s) (b_scstates s) (b_screfs s) (b_slots s) (b_rr s) (b_refr s) v (b_picker s) (b_published s) (b_picks s) (b_now s) (b_next s) (b_fail s).
-Definition set_picker s v := mkBal (b_cfg s) (b_addrs s) (b_nready s) (b_nconn s) (b_ntf s) (b_state s) (b_aff s) (b_fb s) (b_scstates s) (b_screfs s) (b_slots s) (b_rr s) (b_refr s) (b_undet s) v (b_published s) (b_picks s) (b_now s) (b_next s) (b_fail s).
-Definition set_published s v := mkBal (b_cfg s) (b_addrs s) (b_nready s) (b_nconn s) (b_ntf s) (b_state s) (b_aff s) (b_fb s) (b_scstates s) (b_screfs s) (b_slots s) (b_rr s) (b_refr s) (b_undet s) (b_picker s) v (b_picks s) (b_now s) (b_next s) (b_fail s).
-Definition set_picks s v := mkBal (b_cfg s) (b_addrs s) (b_nready s) (b_nconn s) (b_ntf s) (b_state s) (b_aff s) (b_fb s) (b_scstates s) (b_screfs s) (b_slots s) (b_rr s) (b_refr s) (b_undet s) (b_picker s) (b_published s) v (b_now s) (b_next s) (b_fail s).
-Definition set_now s v := mkBal (b_cfg s) (b_addrs s) (b_nready s) (b_nconn s) (b_ntf s) (b_state s) (b_aff s) (b_fb s) (b_scstates s) (b_screfs s) (b_slots s) (b_rr s) (b_refr s) (b_undet s) (b_picker s) (b_published s) (b_picks s) v (b_next s) (b_fail s).
-Definition set_next s v := mkBal (b_cfg s) (b_addrs s) (b_nready s) (b_nconn s) (b_ntf s) (b_state s) (b_aff s) (b_fb s) (b_scstates s) (b_screfs s) (b_slots s) (b_rr s) (b_refr s) (b_undet s) (b_picker s) (b_published s) (b_picks s) (b_now s) v (b_fail s).
-Definition set_fail s v := mkBal (b_cfg s) (b_addrs s) (b_nready s) (b_nconn s) (b_ntf s) (b_state s) (b_aff s) (b_fb s) (b_scstates s) (b_screfs s) (b_slots s) (b_rr s) (b_refr s) (b_undet s) (b_picker s) (b_published s) (b_picks s) (b_now s) (b_next s) v.
+Definition set_cfg s v := mkBal v (b_addrs s) (b_nready s) (b_nconn s) (b_ntf s) (b_state s) (b_aff s) (b_fb s) (b_scstates s) (b_screfs s) (b_slots s) (b_rr s) (b_refr s) (b_undet s) (b_picker s) (b_published s) (b_picks s) (b_now s) (b_next s) (b_fail s) (b_gate s) (b_parked s).
+Definition set_addrs s v := mkBal (b_cfg s) v (b_nready s) (b_nconn s) (b_ntf s) (b_state s) (b_aff s) (b_fb s) (b_scstates s) (b_screfs s) (b_slots s) (b_rr s) (b_refr s) (b_undet s) (b_picker s) (b_published s) (b_picks s) (b_now s) (b_next s) (b_fail s) (b_gate s) (b_parked s).
+Definition set_counts s r c t := mkBal (b_cfg s) (b_addrs s) r c t (b_state s) (b_aff s) (b_fb s) (b_scstates s) (b_screfs s) (b_slots s) (b_rr s) (b_refr s) (b_undet s) (b_picker s) (b_published s) (b_picks s) (b_now s) (b_next s) (b_fail s) (b_gate s) (b_parked s).
+Definition set_state s v := mkBal (b_cfg s) (b_addrs s) (b_nready s) (b_nconn s) (b_ntf s) v (b_aff s) (b_fb s) (b_scstates s) (b_screfs s) (b_slots s) (b_rr s) (b_refr s) (b_undet s) (b_picker s) (b_published s) (b_picks s) (b_now s) (b_next s) (b_fail s) (b_gate s) (b_parked s).
+Definition set_aff s v := mkBal (b_cfg s) (b_addrs s) (b_nready s) (b_nconn s) (b_ntf s) (b_state s) v (b_fb s) (b_scstates s) (b_screfs s) (b_slots s) (b_rr s) (b_refr s) (b_undet s) (b_picker s) (b_published s) (b_picks s) (b_now s) (b_next s) (b_fail s) (b_gate s) (b_parked s).
+Definition set_fb s v := mkBal (b_cfg s) (b_addrs s) (b_nready s) (b_nconn s) (b_ntf s) (b_state s) (b_aff s) v (b_scstates s) (b_screfs s) (b_slots s) (b_rr s) (b_refr s) (b_undet s) (b_picker s) (b_published s) (b_picks s) (b_now s) (b_next s) (b_fail s) (b_gate s) (b_parked s).
+Definition set_scstates s v := mkBal (b_cfg s) (b_addrs s) (b_nready s) (b_nconn s) (b_ntf s) (b_state s) (b_aff s) (b_fb s) v (b_screfs s) (b_slots s) (b_rr s) (b_refr s) (b_undet s) (b_picker s) (b_published s) (b_picks s) (b_now s) (b_next s) (b_fail s) (b_gate s) (b_parked s).
+Definition set_screfs s v := mkBal (b_cfg s) (b_addrs s) (b_nready s) (b_nconn s) (b_ntf s) (b_state s) (b_aff s) (b_fb s) (b_scstates s) v (b_slots s) (b_rr s) (b_refr s) (b_undet s) (b_picker s) (b_published s) (b_picks s) (b_now s) (b_next s) (b_fail s) (b_gate s) (b_parked s).
+Definition set_slots s v := mkBal (b_cfg s) (b_addrs s) (b_nready s) (b_nconn s) (b_ntf s) (b_state s) (b_aff s) (b_fb s) (b_scstates s) (b_screfs s) v (b_rr s) (b_refr s) (b_undet s) (b_picker s) (b_published s) (b_picks s) (b_now s) (b_next s) (b_fail s) (b_gate s) (b_parked s).
+Definition set_rr s v := mkBal (b_cfg s) (b_addrs s) (b_nready s) (b_nconn s) (b_ntf s) (b_state s) (b_aff s) (b_fb s) (b_scstates s) (b_screfs s) (b_slots s) v (b_refr s) (b_undet s) (b_picker s) (b_published s) (b_picks s) (b_now s) (b_next s) (b_fail s) (b_gate s) (b_parked s).
+Definition set_refr s v := mkBal (b_cfg s) (b_addrs s) (b_nready s) (b_nconn s) (b_ntf s) (b_state s) (b_aff s) (b_fb s) (b_scstates s) (b_screfs s) (b_slots s) (b_rr s) v (b_undet s) (b_picker s) (b_published s) (b_picks s) (b_now s) (b_next s) (b_fail s) (b_gate s) (b_parked s).
+Definition set_undet s v := mkBal (b_cfg s) (b_addrs s) (b_nready s) (b_nconn s) (b_ntf s) (b_state s) (b_aff s) (b_fb s) (b_scstates s) (b_screfs s) (b_slots s) (b_rr s) (b_refr s) v (b_picker s) (b_published s) (b_picks s) (b_now s) (b_next s) (b_fail s) (b_gate s) (b_parked s).
+Definition set_picker s v := mkBal (b_cfg s) (b_addrs s) (b_nready s) (b_nconn s) (b_ntf s) (b_state s) (b_aff s) (b_fb s) (b_scstates s) (b_screfs s) (b_slots s) (b_rr s) (b_refr s) (b_undet s) v (b_published s) (b_picks s) (b_now s) (b_next s) (b_fail s) (b_gate s) (b_parked s).
+Definition set_published s v := mkBal (b_cfg s) (b_addrs s) (b_nready s) (b_nconn s) (b_ntf s) (b_state s) (b_aff s) (b_fb s) (b_scstates s) (b_screfs s) (b_slots s) (b_rr s) (b_refr s) (b_undet s) (b_picker s) v (b_picks s) (b_now s) (b_next s) (b_fail s) (b_gate s) (b_parked s).
+Definition set_picks s v := mkBal (b_cfg s) (b_addrs s) (b_nready s) (b_nconn s) (b_ntf s) (b_state s) (b_aff s) (b_fb s) (b_scstates s) (b_screfs s) (b_slots s) (b_rr s) (b_refr s) (b_undet s) (b_picker s) (b_published s) v (b_now s) (b_next s) (b_fail s) (b_gate s) (b_parked s).
+Definition set_now s v := mkBal (b_cfg s) (b_addrs s) (b_nready s) (b_nconn s) (b_ntf s) (b_state s) (b_aff s) (b_fb s) (b_scstates s) (b_screfs s) (b_slots s) (b_rr s) (b_refr s) (b_undet s) (b_picker s) (b_published s) (b_picks s) v (b_next s) (b_fail s) (b_gate s) (b_parked s).
+Definition set_next s v := mkBal (b_cfg s) (b_addrs s) (b_nready s) (b_nconn s) (b_ntf s) (b_state s) (b_aff s) (b_fb s) (b_scstates s) (b_screfs s) (b_slots s) (b_rr s) (b_refr s) (b_undet s) (b_picker s) (b_published s) (b_picks s) (b_now s) v (b_fail s) (b_gate s) (b_parked s).
+Definition set_fail s v := mkBal (b_cfg s) (b_addrs s) (b_nready s) (b_nconn s) (b_ntf s) (b_state s) (b_aff s) (b_fb s) (b_scstates s) (b_screfs s) (b_slots s) (b_rr s) (b_refr s) (b_undet s) (b_picker s) (b_published s) (b_picks s) (b_now s) (b_next s) v (b_gate s) (b_parked s).
+
+Definition set_gate s v := mkBal (b_cfg s) (b_addrs s) (b_nready s) (b_nconn s) (b_ntf s) (b_state s) (b_aff s) (b_fb s) (b_scstates s) (b_screfs s) (b_slots s) (b_rr s) (b_refr s) (b_undet s) (b_picker s) (b_published s) (b_picks s) (b_now s) (b_next s) (b_fail s) v (b_parked s).
+Definition set_parked s v := mkBal (b_cfg s) (b_addrs s) (b_nready s) (b_nconn s) (b_ntf s) (b_state s) (b_aff s) (b_fb s) (b_scstates s) (b_screfs s) (b_slots s) (b_rr s) (b_refr s) (b_undet s) (b_picker s) (b_published s) (b_picks s) (b_now s) (b_next s) (b_fail s) (b_gate s) v.
 
 (* slot updates *)
 Definition sl_set_conn (x : slot) v := mkSlot v (sl_aff x) (sl_streams x) (sl_last x) (sl_de x) (sl_refreshing x) (sl_rcnt x).
@@ -165,6 +170,7 @@ Inductive ret :=
 | RTransient            (* balancer.ErrTransientFailure *)
 | RKeyErr               (* "failed to retrieve affinity key ..." *)
 | RBlocked              (* round-robin BIND waiting for its channel *)
+| RParked               (* parked by the harness just before newSubConn() (second critical section of a growing Pick) *)
 | RPanic
 | RStuck
 | RBadOp.               (* harness referred to something that does not exist *)
@@ -411,16 +417,19 @@ Definition getReadySubConnRef (s : bal) (key : N) : bal * option nat * bool :=
       else (s, aget (b_screfs s) sc, true)
   end.
 
-(* func (p gcpPicker) getLeastBusySubConnRef(): Some i = placed on slot i,
-   None = ErrNoSubConnAvailable (after asking the balancer to grow) *)
-Definition getLeastBusySubConnRef (s : bal) (refs : list nat) : bal * option nat * list out :=
+(* func (p gcpPicker) getLeastBusySubConnRef() *)
+Inductive lb_result :=
+| LBPlaced (i : nat)       (* use slot i *)
+| LBGrow                   (* the pool is below its maximum: call gb.newSubConn(), then ErrNoSubConnAvailable *)
+| LBNone.                  (* no ready subconn *)
+
+Definition leastBusyDecision (s : bal) (refs : list nat) : lb_result :=
   match leastBusy s refs with
-  | None => (s, None, [])            (* unreachable: Pick returned before *)
+  | None => LBNone            (* unreachable: Pick returned before *)
   | Some i =>
-      if streams_of s i <? cfg_wm s then (s, Some i, [])
-      else if (cfg_max s =? 0) || (pool_size s <? cfg_max s) then
-        let '(s1, o) := newSubConn s in (s1, None, o)
-      else (s, Some i, [])
+      if streams_of s i <? cfg_wm s then LBPlaced i
+      else if (cfg_max s =? 0) || (pool_size s <? cfg_max s) then LBGrow
+      else LBPlaced i
   end.
 
 Definition incr_streams (s : bal) (i : nat) : bal :=
@@ -430,7 +439,7 @@ Definition ctx_done (now : Z) (p : pick) : bool :=
   pk_cancelled p || match pk_deadline p with Some d => d <=? now | None => false end.
 
 (* func (p gcpPicker) Pick(info balancer.PickInfo) (balancer.PickResult, error) *)
-Definition Pick (s : bal) (pk : picker) (method : N) (hasctx : bool) (reqkeys : list N)
+Definition Pick (s : bal) (pi : nat) (pk : picker) (method : N) (hasctx : bool) (reqkeys : list N)
                 (deadline : option Z) (cancelled : bool) : bal * list out * ret :=
   match pk with
   | PErr true => (s, [], RTransient)
@@ -471,19 +480,23 @@ Definition Pick (s : bal) (pk : picker) (method : N) (hasctx : bool) (reqkeys : 
                 end
             end
           else
-            let '(s1, placed, o) :=
+            let '(s1, dec) :=
               if negb (N.eqb key 0) then
                 let '(s', r, found) := getReadySubConnRef s key in
-                if found then (s', r, []) else getLeastBusySubConnRef s' refs
-              else getLeastBusySubConnRef s refs in
-            match placed with
-            | None => (s1, o, RNoSubConn)
-            | Some i =>
+                if found then (s', match r with Some i => LBPlaced i | None => LBNone end)
+                else (s', leastBusyDecision s' refs)
+              else (s, leastBusyDecision s refs) in
+            match dec with
+            | LBNone => (s1, [], RNoSubConn)
+            | LBGrow =>
+                if b_gate s1 then (set_parked s1 (b_parked s1 ++ [pi]), [], RParked)
+                else let '(s2, o) := newSubConn s1 in (s2, o, RNoSubConn)
+            | LBPlaced i =>
                 match get_slot s1 i with
-                | None => (s1, o, RPanic)
+                | None => (s1, [], RPanic)
                 | Some r =>
                     let s2 := incr_streams s1 i in
-                    (set_picks s2 (b_picks s2 ++ [mk i PPlaced]), o, RPicked (sl_conn r))
+                    (set_picks s2 (b_picks s2 ++ [mk i PPlaced]), [], RPicked (sl_conn r))
                 end
             end
       end
@@ -625,7 +638,9 @@ Inductive op :=
 | OpDone (pick : nat) (oc : outcome) (replykeys : list N)
 | OpAdvance (dt : Z)
 | OpCancel (pick : nat)
-| OpFactory (fail : bool).
+| OpFactory (fail : bool)
+| OpGate (on : bool)          (* harness: park growing Picks before newSubConn() *)
+| OpResume (k : nat).         (* the k-th parked Pick runs newSubConn() and returns *)
 
 (* [raw]: the configuration the harness passes with every CfgVal resolver update;
    [order]: the READY-snapshot order observed at a publication (oracle). *)
@@ -636,7 +651,12 @@ Definition step (raw : option config) (s : bal) (o : op) (order : list nat) : ba
   | OpConnState sc st => let '(s1, o1) := UpdateSubConnState s sc st order in (s1, o1, RNone)
   | OpPick pi method hasctx reqkeys deadline cancelled =>
       match nth_error (b_published s) pi with
-      | Some pk => Pick s pk method hasctx reqkeys deadline cancelled
+      | Some pk =>
+          (* a Pick parked by the harness holds the mutex of its picker: a second
+             non-round-robin Pick on the same picker would wait for it; the harness never issues one *)
+          if memnat pi (b_parked s) && negb (cmd_eqb (match aget (cfg_methods s) method with Some m => m_cmd m | None => BOUND end) BIND && cfg_rr s)
+          then (s, [], RBadOp)
+          else Pick s pi pk method hasctx reqkeys deadline cancelled
       | None => (s, [], RBadOp)
       end
   | OpDone j oc rk => Done s j oc rk
@@ -648,6 +668,14 @@ Definition step (raw : option config) (s : bal) (o : op) (order : list nat) : ba
       | None => (s, [], RBadOp)
       end
   | OpFactory f => (set_fail s f, [], RNone)
+  | OpGate g => (set_gate s g, [], RNone)
+  | OpResume k =>
+      match nth_error (b_parked s) k with
+      | Some _ =>
+          let s1 := set_parked s (firstn k (b_parked s) ++ skipn (S k) (b_parked s)) in
+          let '(s2, o) := newSubConn s1 in (s2, o, RNoSubConn)
+      | None => (s, [], RBadOp)
+      end
   end.
 
 (* a full harness-visible step: the operation, then every blocked round-robin
